@@ -17,6 +17,7 @@ type Violation struct {
 	Case     json.RawMessage `json:"case"`   // concrete case, replayable by the harness
 	Choices  []int           `json:"choices,omitempty"`
 	Detail   string          `json:"detail"`
+	GoTest   string          `json:"go_test,omitempty"` // plain unit test that replays the case without the framework
 }
 
 // Key identifies a class of violations.
